@@ -339,6 +339,32 @@ func (e *env) submit(s reporter.Summary, maxComments int) (err error) {
 	return reporter.NewCommentReporter(c, e.c.ShowDup).Submit(s)
 }
 
+// shadowPending runs the same summary against a fresh, empty fake of the same
+// platform and pull request with an ample budget: what gets created there is
+// the set of comments pint wants to exist for this summary.
+func (e *env) shadowPending(s reporter.Summary) (out []fakescm.Comment, err error) {
+	sh := &env{c: e.c, w: e.w}
+	if e.gh != nil {
+		sh.gh = fakescm.NewGitHub(e.c.Files)
+		sh.gh.TrimBodies = e.c.TrimBodies
+		sh.fake = sh.gh
+	} else {
+		sh.gl = fakescm.NewGitLab(e.c.Files)
+		sh.gl.TrimBodies = e.c.TrimBodies
+		sh.fake = sh.gl
+	}
+	defer sh.fake.Close()
+	if err = sh.submit(s, 1000000); err != nil {
+		return nil, err
+	}
+	for _, c := range sh.fake.Snapshot() {
+		if !c.General && !c.System {
+			out = append(out, c)
+		}
+	}
+	return out, nil
+}
+
 func (e *env) unknown() []string {
 	if e.gh != nil {
 		return e.gh.Unknown
@@ -661,6 +687,28 @@ func (rn *runner) run(label string, specs []ReportSpec, maxComments int) (runRes
 	for _, ev := range log {
 		if (ev.Kind == "delete" || ev.Kind == "edit") && (e.gh != nil || !deletable(ev.C)) {
 			return res, fmt.Errorf("%s: (iv) %s request for a comment pint must not touch: %s", label, ev.Kind, brief(ev.C))
+		}
+	}
+	// (iv-b) a comment that still corresponds to a reported problem is never removed.  "Still
+	// corresponds" is decided exactly: the comments pint posts for this very summary on an empty
+	// pull request (a shadow run with an ample budget) are this run's pending comments; deleting
+	// a comment equal to one of them (path, line, trimmed text) removes a valid comment - whatever
+	// the budget deferred in the same run.
+	if res.deleted > 0 {
+		pend, perr := e.shadowPending(s)
+		if perr != nil {
+			return res, fmt.Errorf("%w: shadow run failed: %v", errInfra, perr)
+		}
+		for _, ev := range log {
+			if ev.Kind != "delete" {
+				continue
+			}
+			for _, pc := range pend {
+				if equalComment(ev.C, pc) {
+					return res, fmt.Errorf("%s: (iv) deleted a comment that still corresponds to a reported problem (it equals a comment this run wants to exist; %d created of maxComments=%d): %s",
+						label, attempts, maxComments, brief(ev.C))
+				}
+			}
 		}
 	}
 	for _, b := range before {
@@ -1006,11 +1054,12 @@ func targets(w *world) (out []target) {
 }
 
 type gen struct {
-	t       *rapid.T
-	tg      []target
-	counter int
-	used    map[string]bool
-	noOld   bool
+	maxComments int
+	t           *rapid.T
+	tg          []target
+	counter     int
+	used        map[string]bool
+	noOld       bool
 }
 
 func (g *gen) id() int {
@@ -1098,11 +1147,33 @@ func (g *gen) evolve(lbl string, cur []ReportSpec) ([]ReportSpec, []string) {
 	var ops []string
 	for i := 0; i < nops; i++ {
 		l := fmt.Sprintf("%s.op%d", lbl, i)
-		op := rapid.SampledFrom([]string{"add", "add", "drop", "move", "text"}).Draw(g.t, l)
+		op := rapid.SampledFrom([]string{"add", "add", "drop", "move", "text", "burst"}).Draw(g.t, l)
 		if len(next) == 0 {
 			op = "add"
 		}
 		switch op {
+		case "burst":
+			// a push that brings more new problems than one run may comment on, on the rule that
+			// sorts first (so already commented problems come after the deferred ones)
+			first := g.tg[0]
+			for _, tg := range g.tg {
+				if !tg.old && (first.old || tg.file < first.file || (tg.file == first.file && tg.first < first.first)) {
+					first = tg
+				}
+			}
+			k := min(g.maxComments, 5) + rapid.IntRange(1, 2).Draw(g.t, l+".k")
+			for j := 0; j < k; j++ {
+				r := g.fresh(fmt.Sprintf("%s.b%d", l, j))
+				if !first.old {
+					r.File, r.Old, r.Rule, r.Via = first.file, false, first.rule, ""
+					r.First = first.first + j%(first.last-first.first+1)
+					r.Last = r.First
+					if r.Reporter == "rule/dependency" {
+						r.Reporter = "promql/series"
+					}
+				}
+				next = append(next, r)
+			}
 		case "add":
 			next = append(next, g.add(l, next))
 		case "drop":
@@ -1181,7 +1252,7 @@ func genCase(t *rapid.T, known map[string]string) Case {
 	if err != nil {
 		t.Fatalf("generator bug: %v\n%s", err, c.Files[0].NewContent())
 	}
-	g := &gen{t: t, used: used}
+	g := &gen{t: t, used: used, maxComments: c.MaxComments}
 	for _, tg := range targets(w) {
 		if tg.old && excluded(known, "anchor-before") {
 			continue
